@@ -90,25 +90,17 @@ func (w *WebsocketConnection) run() {
 // writePump pumps messages from the SPINE and SHIP writeChannels to the websocket connection
 func (w *WebsocketConnection) writeShipPump() {
 	ticker := time.NewTicker(pingPeriod)
-	defer func() {
-		ticker.Stop()
-		close(w.shipWriteChannel)
-	}()
+	// the write channel is never closed: writers may still be sending on it,
+	// they are released via the close channel instead
+	defer ticker.Stop()
 
 	for {
 		select {
 		case <-w.closeChannel:
 			return
 
-		case message, ok := <-w.shipWriteChannel:
+		case message := <-w.shipWriteChannel:
 			if w.isConnClosed() {
-				return
-			}
-
-			if !ok {
-				logging.Log().Debug(w.remoteSki, "ship write channel closed")
-				// The write channel has been closed
-				_ = w.writeMessage(websocket.CloseMessage, []byte{})
 				return
 			}
 
@@ -140,10 +132,13 @@ func (w *WebsocketConnection) handlePing() {
 	_ = w.writeMessage(websocket.PingMessage, nil)
 }
 
+// close the connection because of an error and report it,
+// unless the connection was already closed
 func (w *WebsocketConnection) closeWithError(err error, reason string) {
 	logging.Log().Debug(w.remoteSki, reason, err)
-	w.setConnClosedError(err)
-	w.dataProcessing.ReportConnectionError(err)
+	if w.shutdown(err) {
+		w.dataProcessing.ReportConnectionError(err)
+	}
 }
 
 // readShipPump checks for messages from the websocket connection
@@ -168,10 +163,7 @@ func (w *WebsocketConnection) readShipPump() {
 			}
 
 			if err != nil {
-				logging.Log().Debug(w.remoteSki, "websocket read error: ", err)
-				w.close()
-				w.setConnClosedError(err)
-				w.dataProcessing.ReportConnectionError(err)
+				w.closeWithError(err, "websocket read error: ")
 				return
 			}
 
@@ -226,19 +218,30 @@ func (w *WebsocketConnection) checkWebsocketMessage(msgType int, data []byte) er
 
 // close the current websocket connection
 func (w *WebsocketConnection) close() {
+	_ = w.shutdown(nil)
+}
+
+// mark the connection as closed, release the pumps and pending writers and
+// close the network connection. This is done only once, the return value
+// tells if this invocation did it
+func (w *WebsocketConnection) shutdown(err error) bool {
+	didShutdown := false
+
 	w.shutdownOnce.Do(func() {
-		if w.isConnClosed() {
-			return
+		didShutdown = true
+
+		w.setConnClosedError(err)
+
+		if w.closeChannel != nil {
+			close(w.closeChannel)
 		}
-
-		w.setConnClosedError(nil)
-
-		close(w.closeChannel)
 
 		if w.conn != nil {
 			_ = w.conn.Close()
 		}
 	})
+
+	return didShutdown
 }
 
 var _ api.WebsocketDataWriterInterface = (*WebsocketConnection)(nil)
@@ -258,8 +261,13 @@ func (w *WebsocketConnection) WriteMessageToWebsocketConnection(message []byte) 
 		return errors.New(connIsClosedError)
 	}
 
-	w.shipWriteChannel <- message
-	return nil
+	// do not block forever if the connection gets closed while the queue is full
+	select {
+	case w.shipWriteChannel <- message:
+		return nil
+	case <-w.closeChannel:
+		return errors.New(connIsClosedError)
+	}
 }
 
 // make sure websocket Write is only called once at a time
